@@ -136,7 +136,9 @@ class TTCFG(
                             (self.rules[nT1][P1][1], other.rules[nT2][P1][1]),
                         )
 
-        return TTCFG(start, rules, clean=True)
+        grammar: "TTCFG[Tuple[S, U], Tuple[T, V]]" = TTCFG(start, rules, clean=True)
+        grammar.type_request = self.type_request
+        return grammar
 
     def __mul_dfa_simple__(
         self, other: DFA[U, DerivableProgram]
